@@ -70,6 +70,16 @@ class Struct:
         return '%s{%s}' % (self.name, ', '.join(repr(c.v) for c in self.fields))
 
 
+class Coroutine(Struct):
+    """a coroutine / async-fn body value: captured variables + resume state"""
+    __slots__ = ('state', 'body')
+
+    def __init__(self, name, fields, body=None):
+        Struct.__init__(self, name, fields)
+        self.state = 0
+        self.body = body
+
+
 class Enum:
     __slots__ = ('name', 'variant', 'vname', 'fields')
 
@@ -279,6 +289,10 @@ def clone_val(v):
     """deep copy by value; references are shared"""
     if v is None or isinstance(v, (bool, Int, S, UnitT, Ref, Opaque, FnItem, SliceV)) or z3.is_expr(v):
         return v
+    if isinstance(v, Coroutine):
+        c2 = Coroutine(v.name, [Cell(clone_val(c.v)) for c in v.fields], v.body)
+        c2.state = v.state
+        return c2
     if isinstance(v, Struct):
         return Struct(v.name, [Cell(clone_val(c.v)) for c in v.fields])
     if isinstance(v, Enum):
